@@ -232,6 +232,17 @@ func reportPristine(spec *RunSpec, v *Violation, st *Stats, p *histParams) {
 				break
 			}
 		}
+		if !found {
+			// last resort: the worker's whole run sequence (state that is reset every so many
+			// entries, or set by whoever came first, depends on all of it)
+			h := spec.clone()
+			ph := *curProc
+			ph.FromRun, ph.UntilRun, ph.Needed, ph.Pristine = curProc.Shard, spec.Run, true, true
+			h.ProcHist = &ph
+			if cl, _ := subprocessResult(h); cl == v.Class {
+				final, found = h, true
+			}
+		}
 	}
 	if !found {
 		spec.Note = "observed at the end of the worker process; the worker's run sequence re-executed in a fresh process did not reproduce it"
